@@ -34,6 +34,8 @@ CLAIMED = {
    text="TLC checks for every body within bounds and every assignment of failing members that conversion fails exactly when a member fails or the element is a union, keeps one entry per member in source order and reports every failure with named fields located by name; each body is then rendered with varied visibility / types / generics and given to receivers declaring every subset of magic fields (plain, custom converter, SpannedValue / WithOriginal / Result wrappers), whose every part must equal the input's."),
  "C15": dict(engine="NestedMetaGrammar+MetaRouting", design_ref="4.3, 4.4, 5/C15", technique="TLA+ specs (NestedMetaGrammar.tla: peek-driven parser vs declarative list grammar; MetaRouting.tla: call-stack machine of the trait's default methods vs routing-by-form) model-checked with TLC exhaustively; every string / every (hook set, item, mode) replayed on the real parser and on 128 probe implementers",
    text="TLC checks that the transcribed parser and the declarative definition of a nested-meta list agree on every token-class string up to the bound, and that for all 128 override sets the dispatch machine routes every item form to exactly one hook or the documented default rejection with the error spanned on the way out; each string is materialised and parsed by the real parse_meta_list (verdict, order, classification, print/re-parse identity), and each routing case is executed on a real probe implementer that logs its calls."),
+ "C11": dict(engine="Scalars", design_ref="4.3, 5/C11", technique="TLA+ specs (Scalars.tla: symbolic integer literals over every type boundary; ScalarsConcrete.tla: concrete 8/16-bit range; ScalarForms.tla: default dispatch restricted to each target's hooks) model-checked with TLC against the declarative 'standard parsing accepts it / denoted value' rule; every case converted by the real impls; float values bit-compared with std",
+   text="TLC checks the transcribed from_meta_num!/float/bool/char/String conversions against the declarative rule for all 24 integer targets x every boundary +-2 x every spelling, for the 8/16-bit targets over a concrete range, and for every scalar target x form x literal kind; each case is converted by the real implementation (exact value, spanned error, no panic); float values are compared bit for bit with str::parse on seeded texts including ones beside f32 rounding midpoints."),
 }
 
 NOT_YET = "check not built yet (planned, see DESIGN.md section 5)"
